@@ -119,7 +119,9 @@ impl<'a> BinDecoder<'a> {
                             && v.0@.len() == old(self).buf()[old(self).idx()]
                             && final(self).idx() == old(self).idx() + 1 + v.0@.len()
                             && v.0@ =~= old(self).buf().subrange(old(self).idx() + 1, old(self).idx() + 1 + v.0@.len()),
-                      Err(_) => true }
+                      // it fails only when the packet is too short for the length octet or for the octets it announces
+                      Err(_) => old(self).idx() == old(self).buf().len()
+                            || old(self).idx() + 1 + old(self).buf()[old(self).idx()] > old(self).buf().len() }
 //%end
 
 //%fn crates/proto/src/serialize/binary/decoder.rs :: impl<'a> BinDecoder<'a> :: read_vec
